@@ -224,3 +224,45 @@ func vh_C16_line_desc_T() {
 func vh_C16_freetext_T() {
 	vhC16(3, vhBounds{freeAlphabet: "a /", freeMax: 4, nameMax: 1, valueAlphabet: "a", valueMax: 1, descAlphabet: "a", descMax: 1, jsons: 1})
 }
+
+// descriptions and free text with characters of more than one byte
+func vh_C16_unicode_Q() {
+	units := []string{"a", "é", "€", ")", " ", "})"}
+	n := 1 + symxChoice("units", 3)
+	desc := ""
+	for i := 0; i < n; i++ {
+		desc += units[symxChoice("u"+string(rune('0'+i)), len(units))]
+	}
+	symxAssume(desc[0] != ' ' && desc[len(desc)-1] != ' ')
+	withJson := symxBool("json")
+	text := "// @Name(v"
+	if withJson {
+		text += `, {s:"é€"}`
+	}
+	text += ") " + desc
+	free := "// " + desc
+	block := gast.CommentBlock{FileName: "f.go", Comments: []gast.CommentNode{
+		{Text: free, Index: 0, Position: gast.CommentPosition{StartLine: 1, EndLine: 1, StartCol: 0, EndCol: len(free)}},
+		{Text: text, Index: 1, Position: gast.CommentPosition{StartLine: 2, EndLine: 2, StartCol: 0, EndCol: len(text)}},
+	}}
+	symxKnown("C16-greedy-json-group", withJson && vhContains(desc, "})"))
+	holder, err := NewAnnotationHolder(block, CommentSourceRoute)
+	symxAssert(err == nil, "C16.wellformed-lines-parse-without-error")
+	if err != nil {
+		return
+	}
+	attrs := holder.Attributes()
+	symxCover("C16.unicode.parsed")
+	symxAssert(len(attrs) == 1 && attrs[0].Name == "Name" && attrs[0].Value == "v", "C16.name")
+	if len(attrs) != 1 {
+		return
+	}
+	symxAssert(attrs[0].Description == desc, "C16.description")
+	if withJson {
+		s, ok := attrs[0].Properties["s"].(string)
+		symxAssert(ok && s == "é€", "C16.props")
+	}
+	frees := holder.NonAttributeComments()
+	symxAssert(len(frees) == 1 && frees[0].Value == desc, "C16.free-text-value")
+	symxAssert(holder.GetDescription() == desc, "C16.entity-description")
+}
